@@ -17,6 +17,10 @@ Proof obligations: lean/RtcVerif/Props/C13.lean.  Correspondence:
   through the real optimisation `PIMixin`; `timeseries_export.xml` is parsed and every exported
   alias series (also under a mapped `-name` id) must be sign * the series of the quantity.
 
+* second tie: harness/translate_c13.py translates the small methods of `AliasDict` from the source
+  into lean/RtcVerif/Gen/AliasDict.lean on every run, with theorems `...Gen_eq_model` (extra
+  proof obligations).
+
 Independent oracle: quantities are identified by a union-find with sign parity built from the
 generator's own alias equations (never from `canonical_signed`); the value seen through a name is
 `sign(name) * value(quantity)`.
@@ -573,7 +577,9 @@ def run(c):
         "pymoca's alias detection and its merging of alias attributes into the canonical variable are trusted",
         "simulation get_var/set_var values compared with 1e-9 relative tolerance (a quotient by the nominal is formed)",
     ]
-    c.prove()
+    from .translate_c13 import gen_alias_dict
+
+    c.prove(extra=gen_alias_dict(c))  # + AliasDict's methods translated from the source on every run
     L = 4 if c.big else 3
     nalpha = stream_exhaustive(c, L)
     stream_random(c, c.n(400, 6000))
@@ -611,7 +617,9 @@ def replay(c, rp):
     """re-runs the recorded AliasDict cases (real code, oracle, model); prints model-based cases"""
     from rtctools._internal.alias_tools import AliasRelation
 
-    c.prove()
+    from .translate_c13 import gen_alias_dict
+
+    c.prove(extra=gen_alias_dict(c))  # + AliasDict's methods translated from the source on every run
     todo = [f for f in rp.get("failures", []) + rp.get("correspondence_disagreements", []) + rp.get("disagreements", []) if f]
     cases = []
     for f in todo:
